@@ -259,9 +259,6 @@ Proof.
 Qed.
 
 (* ------------------------------------------------------------------ the three lists of _analyze_view *)
-Definition existing_of (w : node) (cwd prefix : path) : list path :=
-  rev (pnodup (rev (map (fun d => d ++ [s_job]) (find_all_links w cwd prefix)))).
-
 Definition dead_of (w : node) (cwd prefix : path) (lk : links) : list path :=
   filter (fun b => negb (is_nil b)) (find_dead_branches (analysis_tree (existing_of w cwd prefix) (keys_of lk)) []).
 
@@ -302,21 +299,6 @@ Qed.
 Lemma NoDup_rev_pnodup : forall l, NoDup (rev (pnodup (rev l))).
 Proof. intro l. apply NoDup_rev. apply pnodup_NoDup. Qed.
 
-Lemma existing_of_inv : forall P, P <> [] -> Forall plain P ->
-  forall w cwd (so : spec),
-  good_spec so -> no_root so -> nwf w -> Inv P w true (map (placed P cwd) so) ->
-  forall x, In x (existing_of w cwd (A P)) <-> In x (map key_of so).
-Proof.
-  intros P Pne Ppl w cwd so [Nd Tk] Hroot Hw I x.
-  assert (Hscan : forall d, In d (find_all_links w cwd (A P)) <-> In d (map fst so)).
-  { intro d. rewrite (scan_of_inv P Pne Ppl w cwd _ I Hw).
-    - rewrite map_map. simpl. reflexivity.
-    - intros e He. apply in_map_iff in He. destruct He as [e0 [<- He0]]. simpl. apply Hroot. exact He0. }
-  unfold existing_of. rewrite <- in_rev, pnodup_In, <- in_rev, !in_map_iff. split.
-  - intros [d [<- Hd]]. apply Hscan in Hd. apply in_map_iff in Hd. destruct Hd as [e [<- He]]. exists e. auto.
-  - intros [e [<- He]]. exists (fst e). split; [reflexivity|]. apply Hscan. apply in_map. exact He.
-Qed.
-
 Section Main.
 Variable P : path.
 Hypothesis P_ne : P <> [].
@@ -324,8 +306,6 @@ Hypothesis P_plain : Forall plain P.
 Variables (so sn : spec) (hint : list path) (w : node) (cwd : path).
 Hypothesis Gso : good_spec so.
 Hypothesis Gsn : good_spec sn.
-Hypothesis Rso : no_root so.
-Hypothesis Rsn : no_root sn.
 Hypothesis Hw : nwf w.
 Hypothesis I : Inv P w true (map (placed P cwd) so).
 Hypothesis Hres : forall e, In e so -> realpath w cwd (pjoin (A P) (key_of e)) = snd e.
@@ -339,7 +319,7 @@ Lemma m_ks : keys_of lk = ks.
 Proof. apply keys_of_lk. destruct Gsn; auto. Qed.
 
 Lemma m_ex : forall x, In x (existing_of w cwd (A P)) <-> In x (map key_of so).
-Proof. apply (existing_of_inv P P_ne P_plain w cwd so Gso Rso Hw I). Qed.
+Proof. apply (existing_of_inv P P_ne P_plain w cwd so Gso Hw I). Qed.
 
 Lemma m_St : St P w K0.
 Proof. split; [exact (inv_parent _ _ _ _ I)|exact (inv_kinds _ _ _ _ I)]. Qed.
@@ -371,10 +351,11 @@ Lemma m_dot_not_dead : ~ In [s_dot] (sort_len_desc (order_by hint (dead_of w cwd
 Proof.
   intro H. apply sort_len_In, order_by_In, m_dead in H. destruct H as [_ [H _]].
   apply any_prefix_key in H. destruct H as [e [He Hp]].
-  destruct Gso as [_ Tk]. specialize (Tk e He). specialize (Rso e He).
-  unfold key_of in Hp. destruct (fst e) as [|c T]; [congruence|].
-  simpl in Hp. apply andb_true_iff in Hp. destruct Hp as [Hp _]. apply str_eqb_eq in Hp. subst c.
-  inversion Tk as [|? ? [[Hs _] _] _]; subst. discriminate.
+  destruct Gso as [_ Tk]. specialize (Tk e He).
+  unfold key_of in Hp. destruct (fst e) as [|c T].
+  - simpl in Hp. discriminate.
+  - simpl in Hp. apply andb_true_iff in Hp. destruct Hp as [Hp _]. apply str_eqb_eq in Hp. subst c.
+    inversion Tk as [|? ? [[Hs _] _] _]; subst. discriminate.
 Qed.
 
 Lemma m_O : (forall b, In b O <-> dead_set so sn b) /\ NoDup O /\ StronglySorted Rlen O.
@@ -605,7 +586,7 @@ End Main.
 
 (* view_exact / view_incremental_eq_scratch on plain views without a root link *)
 Theorem incremental_exact : forall P (so sn : spec) hint w n cwd,
-  P <> [] -> Forall plain P -> good_spec so -> good_spec sn -> no_root so -> no_root sn -> nwf w ->
+  P <> [] -> Forall plain P -> good_spec so -> good_spec sn -> nwf w ->
   Inv P w true (map (placed P cwd) so) ->
   (forall e, In e so -> realpath w cwd (pjoin (A P) (key_of e)) = snd e) ->
   exists w' k,
@@ -613,14 +594,14 @@ Theorem incremental_exact : forall P (so sn : spec) hint w n cwd,
     (forall q, kind_at w' (P ++ q) = vk true (map (placed P cwd) sn) q) /\
     (forall r, is_prefix P r = false -> kind_at w' r = kind_at w r).
 Proof.
-  intros P so sn hint w n cwd H1 H2 H3 H4 H5 H6 H7 H8 H9.
+  intros P so sn hint w n cwd H1 H2 H3 H4 H7 H8 H9.
   apply (incremental_exact_aux P H1 H2 so sn hint w cwd); assumption.
 Qed.
 
 (* incremental = from scratch: the two resulting views have the same kind at every path below the
    prefix (the prefix directory itself is kept, empty, when nothing is selected) *)
 Theorem incremental_eq_scratch : forall P (so sn : spec) hint hint' w ws n n' cwd,
-  P <> [] -> Forall plain P -> good_spec so -> good_spec sn -> no_root so -> no_root sn -> nwf w ->
+  P <> [] -> Forall plain P -> good_spec so -> good_spec sn -> nwf w ->
   Inv P w true (map (placed P cwd) so) ->
   (forall e, In e so -> realpath w cwd (pjoin (A P) (key_of e)) = snd e) ->
   dirs_to ws (removelast P) -> get ws P = None ->
@@ -629,8 +610,8 @@ Theorem incremental_eq_scratch : forall P (so sn : spec) hint hint' w ws n n' cw
     update_view hint' (ws, n') cwd (A P) (lk_of sn) = ok (wsc, (n' + ksc)%N) /\
     forall q, q <> [] \/ sn <> [] -> kind_at wi (P ++ q) = kind_at wsc (P ++ q).
 Proof.
-  intros P so sn hint hint' w ws n n' cwd H1 H2 H3 H4 H5 H6 H7 H8 H9 Hd Hg.
-  destruct (incremental_exact P so sn hint w n cwd H1 H2 H3 H4 H5 H6 H7 H8 H9) as [wi [ki [Ri [Ki _]]]].
+  intros P so sn hint hint' w ws n n' cwd H1 H2 H3 H4 H7 H8 H9 Hd Hg.
+  destruct (incremental_exact P so sn hint w n cwd H1 H2 H3 H4 H7 H8 H9) as [wi [ki [Ri [Ki _]]]].
   destruct (from_scratch_exact P sn hint' ws n' cwd H1 H2 H4 Hd Hg) as [wsc [ksc [Rs [_ [Ks _]]]]].
   exists wi, ki, wsc, ksc. split; [exact Ri|]. split; [exact Rs|].
   intros q Hq. rewrite Ki, Ks. destruct q as [|x q']; [|reflexivity].
